@@ -125,6 +125,7 @@ type vsFsmModel struct {
 	mu        sync.Mutex
 	dead      []*rawSess // connections the model expects gobgp to have closed
 	estCount  int
+	negoProbe bool   // the current op probes negotiated options (mode nego)
 	lenient   string // alternative state the RFC also allows at this point
 	ribBefore int
 }
@@ -487,6 +488,12 @@ func (w *simWorld) fsmExpect(st *vsFsmModel, what string, exp []expMsg, wantClos
 		es = append(es, e.String())
 	}
 	if !ok {
+		if st.negoProbe {
+			// the response to a probe of the negotiated options (message size, path identifiers):
+			// parsing under exactly the negotiated options is C08's (and C05's) business
+			w.violate("C08", "negotiated-options", fmt.Sprintf("%s in %s", what, st.state), fmt.Sprintf("after %s in state %s the neighbour received %s, under the options negotiated for this session it must be [%s]", what, st.state, msgsString(got), strings.Join(es, " ")))
+			return
+		}
 		w.violate("C07", "fsm-response", fmt.Sprintf("%s in %s", what, st.state), fmt.Sprintf("after %s in state %s the neighbour received %s, the RFC 4271 state machine prescribes [%s]", what, st.state, msgsString(got), strings.Join(es, " ")))
 		return
 	}
